@@ -105,6 +105,9 @@ func (k *FakeKeyManager) SignAs(id []byte, height uint64, content []byte) []byte
 }
 
 func (k *FakeKeyManager) SignConsensusMessage(ctx context.Context, blockHeight primitives.BlockHeight, content []byte) primitives.Signature {
+	if ctx != nil && ctx.Err() != nil {
+		return nil // a key manager that honours its context has nothing to return once it is cancelled (the interface has no error result)
+	}
 	return k.SignAs(k.me, uint64(blockHeight), content)
 }
 
